@@ -116,6 +116,26 @@ pub fn run(_tier: &str) -> Report {
         if verify_json(&keys, &o3).is_ok() {
             fail(&mut f_roundtrip, json!({"event": name, "why": "tampered content still verifies"}));
         }
+        // every signature of an entity counts, whichever key id it is stored under: with the two signatures of a.org
+        // exchanged (each is a well-formed signature, but made by the other key), or with only the first / only the last
+        // one replaced, verification fails
+        for swap in [("ed25519:1", "ed25519:2", false), ("ed25519:2", "ed25519:1", false), ("ed25519:1", "ed25519:2", true)] {
+            let mut t = o.clone();
+            if let Some(CanonicalJsonValue::Object(sigs)) = t.get_mut("signatures") {
+                if let Some(CanonicalJsonValue::Object(set)) = sigs.get_mut("a.org") {
+                    let (x, y) = (set.get(swap.0).cloned(), set.get(swap.1).cloned());
+                    if let (Some(x), Some(y)) = (x, y) {
+                        set.insert(swap.0.to_owned(), y.clone());
+                        if swap.2 {
+                            set.insert(swap.1.to_owned(), x);
+                        }
+                    }
+                }
+            }
+            if verify_json(&keys, &t).is_ok() {
+                fail(&mut f_roundtrip, json!({"event": name, "why": format!("the signature under {} was replaced by the one made with the other key of the entity{} and the object still verifies", swap.0, if swap.2 { " (and vice versa)" } else { "" })}));
+            }
+        }
         // a signature or a public key with extra bytes appended is not the signature / key: verification fails
         {
             let mut o5 = obj(ev.clone());
@@ -271,6 +291,34 @@ pub fn run(_tier: &str) -> Report {
                 let both = o3.get("signatures").and_then(|s| s.as_object()).map(|s| s.contains_key("a.org") && s.contains_key("b.org")).unwrap_or(false);
                 if !both || !matches!(verify_event(&k3, &o3, &rules), Ok(Verified::All)) || verify_json(&k3, &redact(o3.clone(), &rules.redaction, None).unwrap()).is_err() {
                     fail(&mut f_event_all, d("after two servers hashed and signed in turn, a signature is missing or does not verify"));
+                }
+            }
+            // a server that signed with two keys: a wrong signature under either key id makes verification fail
+            {
+                let mut o4 = obj(ev.clone());
+                if rules.signatures.check_event_id_server {
+                    o4.insert("event_id".to_owned(), CanonicalJsonValue::String("$e:a.org".to_owned()));
+                }
+                hash_and_sign_event("a.org", &a1, &mut o4, &rules.redaction).unwrap();
+                hash_and_sign_event("a.org", &a2, &mut o4, &rules.redaction).unwrap();
+                let mut k4 = PublicKeyMap::new();
+                add_key(&mut k4, "a.org", &a1);
+                add_key(&mut k4, "a.org", &a2);
+                if !matches!(verify_event(&k4, &o4, &rules), Ok(Verified::All)) {
+                    fail(&mut f_event_all, d("an event signed by one server with two keys does not verify"));
+                }
+                for (bad, other) in [("ed25519:1", "ed25519:2"), ("ed25519:2", "ed25519:1")] {
+                    let mut t = o4.clone();
+                    if let Some(CanonicalJsonValue::Object(sigs)) = t.get_mut("signatures") {
+                        if let Some(CanonicalJsonValue::Object(set)) = sigs.get_mut("a.org") {
+                            if let Some(y) = set.get(other).cloned() {
+                                set.insert(bad.to_owned(), y);
+                            }
+                        }
+                    }
+                    if verify_event(&k4, &t, &rules).is_ok() {
+                        fail(&mut f_event_kept, d(&format!("the signature under {bad} is the one made with the other key and the event still verifies")));
+                    }
                 }
             }
             // hashing and signing again after an edit gives All again
